@@ -394,6 +394,19 @@ func generate(family string, rng *rand.Rand, thorough bool) []plan {
 			add(plan{stage: &Stage{Kind: "emit", N: rng.Intn(3), Freq: []int{1, 3}[rng.Intn(2)], A: 1, B: 0, Fail: fl, Try: try}, sched: rnd(0, 0, 4, 0, 0, 3, []int{1, 3}), maxMoves: 30, drain: true, gen: "random-timed"})
 			add(plan{stage: &Stage{Kind: "unfold", N: rng.Intn(3), Seed: rng.Intn(3), A: 1, B: 1, Fail: &Fail{Kind: "in", Xs: []int{rng.Intn(6) + 1}}, Try: false}, sched: rnd(0, 0, 4, 0, 0, 0, nil), maxMoves: 30, drain: true, gen: "random"})
 		}
+		// StdErr: reads every error until the channel closes and logs the non-nil ones (0 = nil); it takes no
+		// context, so a cancel does not concern it
+		for r := 0; r < 16*mul; r++ {
+			in := make([]int, rng.Intn(7))
+			for j := range in {
+				in[j] = rng.Intn(5)
+			}
+			wc := 0
+			if r%4 == 0 {
+				wc = 1
+			}
+			add(plan{stage: &Stage{Kind: "stderr"}, icaps: []int{rng.Intn(3)}, inputs: [][]int{in}, sched: rnd(4, 1, 0, wc, 0, 0, nil), maxMoves: 20, drain: r%5 != 4, gen: "random"})
+		}
 	case "C09":
 		for rep := 0; rep < mul; rep++ {
 			for _, par := range []int{1, 2, 3, 4, 7} {
